@@ -1999,12 +1999,12 @@ fn generate_big(seed: u64, g: &GenCfg) -> Trace {
         let cap = m.cap();
         let op = match rng.weighted(&[5, 3, 2, 2, 1]) {
             0 => {
-                let len = *rng.pick(&[300usize, 820, 1000, 1639, 2048, 3000]);
+                let len = *rng.pick(&[47usize, 64, 65, 100, 128, 129, 255, 256, 257, 300, 512, 820, 1000, 1024, 1639, 2048, 3000]);
                 let start = rng.usize_below(cap - len.min(cap - 1));
                 Op::SetRange { start, vals: (0..len.min(cap - start)).map(|k| { uniq += 1; Fr::from(5000 + uniq + k as u64) }).collect() }
             }
             1 => {
-                let len = *rng.pick(&[500usize, 1700, 2500]);
+                let len = *rng.pick(&[63usize, 130, 256, 500, 1025, 1700, 2500]);
                 let start = rng.usize_below(cap - len.min(cap - 1));
                 Op::Batch { start, vals: (0..len.min(cap - start)).map(|k| { uniq += 1; Fr::from(9000 + uniq + k as u64) }).collect(), rem: vec![] }
             }
